@@ -1,6 +1,7 @@
 package rules
 
 import (
+	"go/types"
 	"fmt"
 	"go/token"
 	"os"
@@ -59,6 +60,8 @@ func c18(w *core.World, r *core.Report) {
 	r.Rule("R18.3", "control keys use the unit's slot tag; constructor formats have exactly one {%s} and brace-free literals", 7)
 	ruleControlKeys(w, r)
 
+	r.Rule("R18.9", "the slot-tag table behind the control keys is read only after it was built", 1)
+	ruleSlotTagTablePublished(w, r)
 	r.Rule("R18.4", "cluster client re-validation before MULTI is sent", 4)
 	ruleTxnBatcherValidation(w, r)
 
@@ -618,4 +621,94 @@ func indexCoversFrom(idx ssa.Value, from int64, s ssa.Value) bool {
 	}
 	b, ok := call.Call.Value.(*ssa.Builtin)
 	return ok && b.Name() == "len" && len(call.Call.Args) == 1 && call.Call.Args[0] == s
+}
+
+// ---------------------------------------------------------------- R18.9 the slot-tag table is read only after it was built
+
+// ruleSlotTagTablePublished: control keys hash to the unit's slot because
+// BisyncSlotTag(slot) returns a tag that hashes there. The table of tags is
+// built lazily; a reader that does not wait for the build to finish gets the
+// empty tag, its keys become "...:{}" (whole-key hashing) and land in an
+// unrelated slot. Every read of the table outside its builder must therefore
+// be ordered after the build by sync.Once.Do(builder) (which returns to every
+// caller only when the builder has run), or the table must be filled by the
+// package initialiser.
+func ruleSlotTagTablePublished(w *core.World, r *core.Report) {
+	f := fn(w, r, "pkg/redis/checkpoint.BisyncSlotTag")
+	if f == nil {
+		return
+	}
+	tableOf := func(in ssa.Instruction) *ssa.Global {
+		ia, ok := in.(*ssa.IndexAddr)
+		if !ok {
+			return nil
+		}
+		g, _ := ia.X.(*ssa.Global)
+		if g == nil {
+			return nil
+		}
+		if p, ok := g.Type().Underlying().(*types.Pointer); ok {
+			switch e := p.Elem().Underlying().(type) {
+			case *types.Array:
+				if b, isB := e.Elem().Underlying().(*types.Basic); isB && b.Info()&types.IsString != 0 {
+					return g
+				}
+			}
+		}
+		return nil
+	}
+	n := 0
+	for _, in := range core.OwnInstrs(f) {
+		tab := tableOf(in)
+		if tab == nil {
+			continue
+		}
+		n++
+		// who writes the table
+		var builders []*ssa.Function
+		for _, g := range w.FuncsIn("pkg/redis/checkpoint") {
+			for _, i2 := range core.OwnInstrs(g) {
+				if t2 := tableOf(i2); t2 == tab {
+					for _, ref := range *i2.(*ssa.IndexAddr).Referrers() {
+						if st, ok := ref.(*ssa.Store); ok && st.Addr == i2.(ssa.Value) {
+							builders = append(builders, g)
+						}
+					}
+				}
+			}
+		}
+		ok := false
+		for _, b := range builders {
+			if b.Name() == "init" || b == f {
+				continue
+			}
+			for _, s := range core.SitesNamed(f, false, "(*sync.Once).Do") {
+				a := s.Common().Args
+				if len(a) >= 1 {
+					fnArg := core.Unwrap(a[len(a)-1])
+					if fv, isF := fnArg.(*ssa.Function); isF && fv == b && core.Dominates(s.Instr, in) {
+						ok = true
+					}
+					if mc, isMC := fnArg.(*ssa.MakeClosure); isMC && mc.Fn == ssa.Value(b) && core.Dominates(s.Instr, in) {
+						ok = true
+					}
+				}
+			}
+		}
+		if len(builders) > 0 {
+			allInit := true
+			for _, b := range builders {
+				if b.Name() != "init" {
+					allInit = false
+				}
+			}
+			if allInit {
+				ok = true
+			}
+		}
+		r.Check(ok, "BisyncSlotTag/table-read-after-build", in.Pos(), "the slot-tag table is read without being ordered after its build by sync.Once.Do(builder): a caller that arrives while another one is still filling the table reads an empty tag, and its control keys hash outside the unit's slot")
+	}
+	if n == 0 {
+		r.OK("BisyncSlotTag/table-read-after-build", f.Pos(), "no lazily built table")
+	}
 }
